@@ -352,7 +352,7 @@ class TextGen:
         if rng.random() < 0.2:
             name = '/' + rng.choice(['snd', 'a/b']) + '/' + name
         case.features.add('audio')
-        return '#AUDIO0(%s.wav)(%s)' % (name, ','.join(str(rng.choice([100, 500, 1000])) for _ in range(rng.randint(2, 6))))
+        return '#AUDIO0(%s%s)(%s)' % (name, rng.choice(['.wav', '.wav', '.WAV', '.Wav']), ','.join(str(rng.choice([100, 500, 1000])) for _ in range(rng.randint(2, 6))))
 
     def html_macro(self):
         self.case.features.add('external-link')
